@@ -20,7 +20,7 @@ vars == <<i, l, st, v>>
 TICK == 1000000
 
 IsUngetByte(b) == b \in 1..26
-St0 == [wireIn |-> <<>>, wireOut |-> <<>>, keysIn |-> <<>>, keysOut |-> 0, ungetIn |-> <<>>, ungetOut |-> <<>>,
+St0 == [wireIn |-> <<>>, wireOut |-> <<>>, keysIn |-> <<>>, keysOut |-> 0, ungetIn |-> <<>>, ungetOut |-> <<>>, order |-> <<>>,
         trig |-> <<>>, ts |-> <<>>, sched |-> <<>>, sigs |-> 0, tswrites |-> 0, tsdone |-> {},
         gone |-> {}, schedOut |-> <<>>,
         open |-> FALSE, T |-> -1, t0 |-> 0, deliverable |-> FALSE, schedAtStart |-> FALSE, bigRead |-> FALSE,
@@ -57,8 +57,16 @@ KeyBytesVerdict(s, bytes) ==
   IN IF ~IsPrefixOf(s.ungetOut \o u, s.ungetIn) THEN "UngetBytesOnceInOrder"
      ELSE IF ~IsPrefixOf(s.wireOut \o w, s.wireIn) THEN "WireBytesOnceInOrder"
      ELSE "ok"
+\* s.order: for every byte the Input holds (read from the stream, or handed over by unget_bytes and not yet returned) whether
+\* it was handed over (1) or read (0), in the order in which the Input came to hold them.  Bytes handed over were read from the
+\* stream by somebody else AFTER everything this Input had read before, so they come out after those (and before what is
+\* read later): the bytes of a returned key / paste continue that order.
+Tags(bytes) == [k \in 1..Len(bytes) |-> IF IsUngetByte(bytes[k]) THEN 1 ELSE 0]
+OrderVerdict(s, bytes) ==
+  IF Len(bytes) <= Len(s.order) /\ SubSeq(s.order, 1, Len(bytes)) = Tags(bytes) THEN "ok" ELSE "HandedOverBytesInArrivalOrder"
 AddBytes(s, bytes) == [s EXCEPT !.ungetOut = s.ungetOut \o SelectSeq(bytes, IsUngetByte),
-                                !.wireOut = s.wireOut \o SelectSeq(bytes, LAMBDA b : ~IsUngetByte(b))]
+                                !.wireOut = s.wireOut \o SelectSeq(bytes, LAMBDA b : ~IsUngetByte(b)),
+                                !.order = IF Len(bytes) <= Len(s.order) THEN SubSeq(s.order, Len(bytes) + 1, Len(s.order)) ELSE <<>>]
 AddKeys(s, keys) == [s EXCEPT !.keysOut = s.keysOut + Len(WireKeys(keys))]
 
 RetVerdict(s, e, pt) ==
@@ -69,13 +77,15 @@ RetVerdict(s, e, pt) ==
      ELSE IF e.kind = "key" THEN
           (IF s.bigRead /\ pt >= 0 THEN "BurstComesBackAsOnePaste"
            ELSE IF KeyBytesVerdict(s, e.bytes) # "ok" THEN KeyBytesVerdict(s, e.bytes)
-           ELSE KeypressVerdict(s, <<e.bytes>>))
+           ELSE IF KeypressVerdict(s, <<e.bytes>>) # "ok" THEN KeypressVerdict(s, <<e.bytes>>)
+           ELSE OrderVerdict(s, e.bytes))
      ELSE IF e.kind = "paste" THEN
           (IF ~s.bigRead THEN "PasteWithoutBurst"
            ELSE IF e.keys = <<>> THEN "EmptyPaste"
            ELSE IF Len(FlattenSeq(e.keys)) < s.bigN THEN "PasteHoldsWholeBurst"
            ELSE IF KeyBytesVerdict(s, FlattenSeq(e.keys)) # "ok" THEN KeyBytesVerdict(s, FlattenSeq(e.keys))
-           ELSE KeypressVerdict(s, e.keys))
+           ELSE IF KeypressVerdict(s, e.keys) # "ok" THEN KeypressVerdict(s, e.keys)
+           ELSE OrderVerdict(s, FlattenSeq(e.keys)))
      ELSE IF e.kind = "event" THEN
           (IF e.id \in s.gone THEN "EventDeliveredTwice"
            ELSE IF Pending(s.trig, s.gone) # <<>> /\ Pending(s.trig, s.gone)[1] = e.id THEN "ok"
@@ -116,7 +126,7 @@ Next ==
   /\ LET e == Traces[i].ev[l]
          pt == Traces[i].paste
      IN CASE e.k = "arrive" -> st' = [st EXCEPT !.wireIn = st.wireIn \o e.bytes, !.keysIn = st.keysIn \o e.keys] /\ v' = v
-          [] e.k = "unget" -> st' = [st EXCEPT !.ungetIn = st.ungetIn \o e.bytes] /\ v' = v
+          [] e.k = "unget" -> st' = [st EXCEPT !.ungetIn = st.ungetIn \o e.bytes, !.order = st.order \o [k \in 1..Len(e.bytes) |-> 1]] /\ v' = v
           [] e.k = "trig" -> st' = [st EXCEPT !.trig = Append(st.trig, e.id)] /\ v' = v
           [] e.k = "tsappend" -> st' = [st EXCEPT !.ts = Append(st.ts, e.id)] /\ v' = v
           [] e.k = "tswrite" -> st' = [st EXCEPT !.tswrites = st.tswrites + 1,
@@ -131,7 +141,8 @@ Next ==
                                    !.schedAtStart = PendingSched(st) # <<>>, !.bigRead = FALSE,
                                    !.wireAtStart = Len(st.wireIn), !.ticksInReq = 0, !.stalled = FALSE]
                /\ v' = Fail(IF st.open THEN "MachineryNestedRequest" ELSE "ok")
-          [] e.k = "read" -> st' = [st EXCEPT !.bigRead = st.bigRead \/ (pt >= 0 /\ e.n > pt /\ e.first = 1),
+          [] e.k = "read" -> st' = [st EXCEPT !.order = st.order \o [k \in 1..e.n |-> 0],
+                                              !.bigRead = st.bigRead \/ (pt >= 0 /\ e.n > pt /\ e.first = 1),
                                               !.bigN = IF pt >= 0 /\ e.n > pt /\ e.first = 1 THEN e.n ELSE st.bigN] /\ v' = v
           [] e.k = "ret" -> /\ v' = Fail(RetVerdict(st, e, pt)) /\ st' = AfterRet(st, e)
           [] e.k = "end" ->
